@@ -177,10 +177,14 @@ type reference struct {
 }
 
 // candidates: the modules a name is routed to (dependency.go: an explicit loader for the first segment
-// takes precedence, otherwise all in order)
+// takes precedence, otherwise all in order; a chain of file-based loaders: every loader of the chain is asked,
+// the parents first)
 func (r *reference) candidates(name string) []*modView {
 	if r.cs.Top == "single" {
 		return []*modView{r.views[0]}
+	}
+	if r.cs.Top == "chain" {
+		return r.views
 	}
 	segs := segsOf(name)
 	var live []*modView
@@ -510,7 +514,21 @@ func dcheck(cs *Case, cr *CaseResult, rootUser bool, res *lib.Result) []lib.Viol
 				}
 			case "found", "notfound":
 				if r.closureClean(name) {
-					byKey[key] = append(byKey[key], ans{o, name})
+					oc := o
+					if cs.Top == "chain" {
+						// two loaders of the chain with a definition for the same name: which of the two definitions
+						// a lookup answers with is not decided by the property text (that it is found is)
+						nd := 0
+						for _, v := range cands {
+							if v.expectFound(name, rootUser) {
+								nd++
+							}
+						}
+						if nd > 1 {
+							oc.Marker, oc.IsTS = 0, false
+						}
+					}
+					byKey[key] = append(byKey[key], ans{oc, name})
 				}
 				if o.Kind == "found" && lowerASCII(o.Name) != key {
 					add("carries-name", fmt.Sprintf("op %d load %q found a definition named %q", i, name, o.Name))
@@ -537,12 +555,14 @@ func dcheck(cs *Case, cr *CaseResult, rootUser bool, res *lib.Result) []lib.Viol
 						nExp++
 					}
 				}
-				if len(cands) > 1 && nExp > 0 && nDirect != nExp {
+				if cs.Top != "chain" && len(cands) > 1 && nExp > 0 && nDirect != nExp {
 					break // several loaders could answer: not decided by the property text
 				}
+				// (a chain of file-based loaders: the name is found iff some loader of the chain has a good definition
+				// for it at the derived path - every loader of the chain is asked)
 				if (nExp > 0) != (o.Kind == "found") {
 					var tags []string
-					if cs.Top != "single" && nDirect == 0 && nExp > 0 && o.Kind == "notfound" && r.loopRouted(name) {
+					if (cs.Top == "dep" || cs.Top == "runtime") && nDirect == 0 && nExp > 0 && o.Kind == "notfound" && r.loopRouted(name) {
 						// known finding: a dependency loader that has no explicit loader for the first segment asks every
 						// loader in turn and caches its own "absent" while the member's TypeSet is still being resolved
 						tags = []string{"dep-loop-routed-typeset-member"}
